@@ -21,6 +21,8 @@ package m
 //@   modifies nothing
 //@   ensures range: result1 == nil ==> 0 <= result0 && result0 <= 255
 //@   ensures empty: len(sp.Hops) == 0 ==> result0 == 0 && result1 == nil
+//@   ensures refuse-only-above-255 [C12]: len(sp.Hops) > 0 && sp.Hops[0].ReturnLabel == 0 && sp.Hops[len(sp.Hops)-1].ForwardLabel == 0 ==> (result1 != nil) == (int(size) > 255)
+//@   ensures exact [C12]: len(sp.Hops) > 0 && result1 == nil ==> result0 == int(size)
 //@   invariant 1 i: 0 <= i && i <= len(sp.Hops) && len(sp.Hops) >= 1 && len(sizeSim) == len(sp.Hops)*2-1
 //@   invariant 1 el: forall k int :: 0 <= k && k < len(sizeSim) ==> sizeSim[k] <= 3
 //@   decreases 1: len(sp.Hops) - i
@@ -37,8 +39,9 @@ package m
 //@ func TransformToReturnBlock
 //@   modifies block[0:len(block)]
 //@   invariant 1 i: 0 <= i && i <= len(block) && len(block) == len(old_block) && base(block) == base(old_block) && off(block) == off(old_block)
+//@   invariant 1 reversed [C12]: forall k int :: 0 <= k && k < len(block) ==> block[k] == old(block[len(block)-1-k])
+//@   invariant 1 zeros [C12]: forall k int :: 0 <= k && k < i ==> block[k] == 0
 //@   decreases 1: len(block) - i
+//@   ensures leading-zeros-removed [C12]: (exists k int :: 0 <= k && k < len(block) && old(block[len(block)-1-k]) != 0) ==> block[0] != 0
+//@   ensures all-zero-stays [C12]: (forall k int :: 0 <= k && k < len(block) ==> old(block[k]) == 0) ==> (forall k int :: 0 <= k && k < len(block) ==> block[k] == 0)
 
-//@ func SwitchPath.BuildBlocks
-//@   requires sp != nil
-//@   modifies sp.ForwardBlock, sp.ReturnBlock
